@@ -795,7 +795,7 @@ class _Frame:
                 return lambda *a, **k: obj
             if attr == "repeat":
                 return lambda repeats, axis=None: _np_repeat(obj, repeats, axis)
-            if attr in ("integrate", "_ndim", "dot", "ddot") and hasattr(obj, attr):
+            if attr in ("integrate", "_ndim", "_shape", "dot", "ddot") and hasattr(obj, attr):
                 return getattr(obj, attr)
             raise self.bad(f"array attribute {attr}", n)
         if isinstance(obj, XObj):
